@@ -24,7 +24,7 @@ def case(draw, tier):
     kinds = ('tri', 'quad', 'tet', 'hex') + (('line',) if fmt in ('json', 'dict', 'npz') else ())
     desc = draw(gm.mesh(kinds=kinds, max_cells=16, max_cells_3d=8, order2=not first_only, curved=True))
     nc = len(desc['t'][0])
-    tg = draw(gt.tags(nc, oriented=True, maxnames=3, names=draw(st.booleans()), empty_boundaries=True))
+    tg = draw(gt.tags(nc, oriented=True, maxnames=3, names=draw(st.booleans()), empty_boundaries=True, repeats=True))
     return dict(mesh=desc, tags=tg, fmt=fmt, pdata=draw(st.booleans()), cdata=draw(st.booleans()),
                 encode_pd=draw(st.integers(0, 3)) == 0, spare=draw(st.integers(0, 4)) == 0,
                 seed=draw(st.integers(0, 10**6)))
@@ -56,7 +56,7 @@ def ori_map(v):
     out = {}
     for f, o in zip(idx.tolist(), ori.tolist()):
         out.setdefault(int(f), []).append(int(o))
-    return {f: tuple(sorted(o)) for f, o in out.items()}
+    return {f: tuple(sorted(set(o))) for f, o in out.items()}       # a facet named twice from the same side is named once
 
 
 def body(c, ctx):
@@ -163,6 +163,29 @@ def body(c, ctx):
                 bad = [f for f in a if a[f] != b[f]]
                 ctx.fail('boundary_orientation', f'{k}: {len(bad)} of {len(a)} flags differ', **sig)
                 break
+    # ---------------------------------------------------------------- a second export of what came back
+    if fmt == 'meshio' and out is not None and not ctx.failures and m2.subdomains and len(m2.subdomains) >= 1:
+        # the loaded user data (it also holds the encoded fields of the FIRST export) handed back with the mesh whose named sets
+        # were redefined meanwhile: the file carries the current sets
+        name = sorted(m2.subdomains)[0]
+        other = np.setdiff1d(np.arange(m2.nelements), np.asarray(m2.subdomains[name]))[: max(1, m2.nelements // 2)].astype(np.int32)
+        m3 = m2.with_subdomains({name: other})
+        try:
+            m4 = from_meshio(to_meshio(m3, cell_data=dict(out[1])))
+            if set(np.asarray((m4.subdomains or {}).get(name, [])).tolist()) != set(other.tolist()):
+                ctx.fail('stale_tags_from_user_data', f'subdomain {name} redefined before the second export comes back as it was', **sig)
+        except ValueError:
+            pass            # meshio refuses cell data of another layout: loud
+    if fmt == 'meshio' and not ctx.failures and m.boundaries and len(m.boundaries) >= 2:
+        # the tag dictionary of one mesh object edited in place between two exports
+        import dataclasses
+        me = dataclasses.replace(m, _boundaries=dict(m.boundaries))
+        from_meshio(to_meshio(me))
+        gone = sorted(me.boundaries)[0]
+        del me.boundaries[gone]
+        m5 = from_meshio(to_meshio(me))
+        if set(m5.boundaries or {}) != set(me.boundaries):
+            ctx.fail('stale_tags_second_export', f'{gone} deleted between two exports of the same mesh object is still in the second', **sig)
     # ---------------------------------------------------------------- user data
     if out is not None:
         pdl, cdl = out
